@@ -151,3 +151,34 @@ Proof.
   destruct (exists_last Hn) as [t [z E]]. rewrite E in *. rewrite last_last in Hl. subst z.
   rewrite rev_app_distr. cbn [rev app]. eexists. reflexivity.
 Qed.
+
+(* under the modelled policy: whatever changes the row set or defines a column that looks at other rows -- Take, Filter,
+   Aggregate, Join, From, set operations, Windowed / Aggregation / NonGroup column definitions -- keeps its relative order;
+   only sorts and row-local (Plain) column definitions take part in the swaps *)
+Lemma model_policy_respects_order : policy_respects order_matters model_reorder_policy = true.
+Proof. vm_compute. reflexivity. Qed.
+
+Lemma reorder_keeps_rowset_order p :
+  filter (fun i => order_matters (snd i)) (reorder model_reorder_policy p) = filter (fun i => order_matters (snd i)) p.
+Proof. apply reorder_projection. exact model_policy_respects_order. Qed.
+
+(* with equal policies the walk is the same walk *)
+Lemma should_swap_ext a b : reorder_policy_eqb a b = true -> forall c k, should_swap a c k = should_swap b c k.
+Proof.
+  unfold reorder_policy_eqb. intros H c k. apply andb_true_iff in H as [H Ho]. apply andb_true_iff in H as [Ht Hs].
+  apply eqb_prop in Ho, Hs. rewrite forallb_forall in Ht. specialize (Ht c (in_all_cx c)). apply eqb_prop in Ht.
+  destruct k; cbn [should_swap]; congruence.
+Qed.
+
+Lemma sink_ext a b : reorder_policy_eqb a b = true -> forall c x s, sink a c x s = sink b c x s.
+Proof.
+  intros H c x. induction s as [|p rest IH]; [reflexivity|]. cbn [sink]. destruct rest; [reflexivity|].
+  rewrite (should_swap_ext a b H). rewrite IH. reflexivity.
+Qed.
+
+Lemma reorder_ext a b : reorder_policy_eqb a b = true -> forall p, reorder a p = reorder b p.
+Proof.
+  intros H p. unfold reorder. f_equal. generalize (@nil ritem). induction p as [|x p IH]; intro s; [reflexivity|].
+  cbn [fold_left]. replace (reorder_step a s x) with (reorder_step b s x); [apply IH|].
+  unfold reorder_step. destruct s; [reflexivity|]. destruct (snd x); try reflexivity. symmetry. apply sink_ext. exact H.
+Qed.
